@@ -34,6 +34,7 @@ def check_before_store(ctx):
     stores = [n for n in g.stmt_nodes() if n.kind == 'stmt' and isinstance(n.ast, (ast.Assign, ast.AugAssign)) and
               any(unparse(t) in ATTR_OBJ for t in (n.ast.targets if isinstance(n.ast, ast.Assign) else [n.ast.target]))]
     _in_place_edits(ctx, f, g)
+    rejects_non_attributes(ctx)
     if len(stores) == 0:
         # per-key form: every `self._attributes[k] = v` must be dominated by `self._check_attribute(k, v)`
         sub = []
@@ -115,6 +116,25 @@ def check_before_store(ctx):
         ok = isinstance(arg, ast.Dict) and len(arg.keys) == 1
         res.check(ok, 'R-DOM.check-before-store', e.caller.fq, "_set_attributes is called with a one-entry dictionary (premise: removal and validation never mix)",
                   fail_detail=short(e.node), key=f"R-DOM.check-before-store|caller|{e.caller.qualname}")
+
+
+def rejects_non_attributes(ctx):
+    """Elements of a simple type have no attributes; a non-dictionary is not an attribute set."""
+    sm, res = ctx.sm, ctx.res
+    f = sm.func('XMLElement', '_set_attributes', T.M_XMLELEMENT)
+    g = cfg_of(f.node)
+    p = f.params[1]
+    r1 = r2 = False
+    for n in g.stmt_nodes():
+        if n.kind == 'stmt' and isinstance(n.ast, ast.Raise):
+            guards = [(unparse(t.ast), lab) for t, lab in dom.guards_of(g, n) if t.kind == 'test']
+            txt = unparse(n.ast)
+            if 'XSDWrongAttribute' in txt and ('self.TYPE.get_xsd_tree().is_simple_type', 'T') in guards and (p, 'T') in guards:
+                r1 = True
+            if 'TypeError' in txt and any(gt in (f"not isinstance({p}, dict)",) and lab == 'T' for gt, lab in guards):
+                r2 = True
+    res.check(r1, 'R-DOM.check-before-store', f.fq, "an element of a simple type rejects any attribute with XSDWrongAttribute", key='R-DOM.check-before-store|simple-type-no-attributes')
+    res.check(r2, 'R-DOM.check-before-store', f.fq, "a non-dictionary is rejected with TypeError before anything is read from it", key='R-DOM.check-before-store|non-dict')
 
 
 def _in_place_edits(ctx, f, g):
